@@ -26,6 +26,9 @@ type Program struct {
 	InitPkgs map[string]bool
 	// per-run stubs: fully qualified function name -> native model
 	Stubs map[string]NativeFn
+	// harness files (base names) left out because they do not compile
+	// against the current tree, with the first error of each
+	Dropped map[string]string
 }
 
 type fnInfo struct {
